@@ -1365,6 +1365,10 @@ class FortranFile:
                 line_no = idx
                 line_no_end = line_no
                 continue
+            # Neither is a preprocessor directive: the ``&&`` of ``#if A && B`` is
+            # not a continuation mark that joins the next line to it
+            if get_full and FRegex.PP_ANY.match(line):
+                continue
             # A fixed-form comment line is not code, whatever its text looks like
             # ("Do not change ...", "Call the ..."); OpenMP sentinels are kept
             if (
